@@ -495,6 +495,26 @@ def with_order(chk, rid):
            'a WITH table can be listed twice (duplicate definition)', fi=v.fi, node=c)
     chk.ob(rid, dotted(c.args[0]) == 'table' if c.args else False, None,
            'appends the table being translated', 'appends %s' % norm(c), fi=v.fi, node=c)
+  # a WITH table already defined is compiled again for every new parent: that
+  # is what registers the WITH tables nested in it for that parent
+  for s_ in ps:
+    facts = v.guards(s_[0])
+    first = any(val and isinstance(e, ast.Compare) and isinstance(e.ops[0], ast.NotIn) and
+                'table_to_defined_table_map' in norm(e) for e, val in facts)
+    if first:
+      continue
+    other = [norm(e, 60) for e, val in facts
+             if 'table_to_defined_table_map' not in norm(e) and
+             'with_compilation_done_for_parent' not in norm(e)]
+    per_parent = any(val and 'with_compilation_done_for_parent' in norm(e) and
+                     isinstance(e, ast.Compare) and isinstance(e.ops[0], ast.NotIn)
+                     for e, val in facts)
+    chk.ob(rid, per_parent and not other, None,
+           'an already defined WITH table is re-compiled once for every new parent, unconditionally',
+           'the re-compilation for a new parent statement also depends on %s: '
+           'when it is skipped the WITH tables nested inside are not registered '
+           'for that parent and its WITH clause uses an undefined table' % other,
+           fi=v.fi, node=s_[1])
   hdrs = [n for n in v.cfg.stmt_nodes() if isinstance(v.cfg.stmt[n], ast.If) and
           'table_to_with_dependencies' in norm(v.cfg.stmt[n].test)]
   chk.ob(rid, bool(hdrs) and v.cfg.must_pass_after(v.cfg.entry, hdrs), None,
